@@ -187,6 +187,10 @@ def trace_calls(tree):
             tags.append("restore")
         elif s == "logger.flush()":
             tags.append("flush")
+        elif isinstance(st, ast.Try) and len(st.body) == 1 and _src(st.body[0]) == "logger.flush()" \
+                and len(st.handlers) == 1 and isinstance(st.handlers[0].type, ast.Name) and not st.finalbody \
+                and not st.orelse and not any(isinstance(n, ast.Raise) for n in ast.walk(st.handlers[0])):
+            tags.append("flush_contained:" + st.handlers[0].type.id)
         else:
             raise ExtractError("trace_calls: finally: " + s)
     return tags
